@@ -11,7 +11,7 @@ RULE = ('cases = generated DSG spec (G-SEL u G-CON u G-CONN u G-DV) x encoder x 
         'reproduces (x_corr, active, architecture), active selection variables name the option wired to the originating '
         'node, existing design-variable nodes carry the reported value, different corrected vectors => different '
         'architectures; non-trivial = >= 1 correction and >= 2 distinct corrected vectors; distinct by sha1(spec, encoder)')
-BUDGET = {'quick': 150, 'thorough': 3000}
+BUDGET = {'quick': 150, 'thorough': 5000}
 
 
 def strategy(tier):
